@@ -115,6 +115,9 @@ class _Ev:
                 return _Rec()
             if f == "len":
                 return 1
+            for k in n.keywords:
+                if k.arg not in ("out", "casting", "dtype"):
+                    raise Untranslatable("keyword %s of %s" % (k.arg, f))
             args = [self.ev(a) for a in n.args]
             if f in ("np.fmod",) and isinstance(args[1], int) and args[1] > 0:
                 return args[0] - args[1] * _trunc_div(args[0], args[1])
@@ -147,6 +150,23 @@ class _Ev:
                 cur = self.env[st.target.id]
                 self.env[st.target.id] = self.ev(ast.BinOp(left=ast.Name(id=st.target.id, ctx=ast.Load()), op=st.op,
                                                            right=st.value))
+            elif isinstance(st, ast.AugAssign) and isinstance(st.target, ast.Subscript) and \
+                    isinstance(self.ev(st.target.value), _Rec):
+                # field op= value (numpy in-place arithmetic on a record field: result wraps to the field width)
+                load = ast.Subscript(value=st.target.value, slice=st.target.slice, ctx=ast.Load())
+                val = self.ev(ast.BinOp(left=load, op=st.op, right=st.value))
+                self.ev(st.target.value).store(self.ev(st.target.slice), val)
+            elif isinstance(st, ast.Expr) and isinstance(st.value, ast.Call) and \
+                    any(k.arg == "out" for k in st.value.keywords):
+                # ufunc(..., out=<target>): the value is stored into the target
+                tgt = [k.value for k in st.value.keywords if k.arg == "out"][0]
+                val = self.ev(st.value)
+                if isinstance(tgt, ast.Subscript) and isinstance(self.ev(tgt.value), _Rec):
+                    self.ev(tgt.value).store(self.ev(tgt.slice), val)
+                elif isinstance(tgt, ast.Name):
+                    self.env[tgt.id] = val
+                else:
+                    raise Untranslatable("out= target " + ast.unparse(tgt))
             elif isinstance(st, ast.Expr) and isinstance(st.value, ast.Constant):
                 continue
             elif isinstance(st, ast.Return):
